@@ -1081,6 +1081,57 @@ theorem dense_general_formula (axis batchDims : List Int) (nFeat : Nat) (x k : T
 example : (denseGeneral [-1, 1] [0] 2 (⟨[2, 2, 3], #[1, 2, 3, 4, 5, 6, 7, 8, 9, 10, 11, 12]⟩ : Tensor Int)
     ⟨[2, 2, 3, 1, 2], (List.replicate 24 1).toArray⟩ (some ⟨[2, 1, 2], #[1, 2, 3, 4]⟩)).toBool = true := by decide
 
+/-- `DenseGeneral(batch_dims=(0,))` / `nnx.LinearGeneral(batch_axis={0: B})` with a per-batch kernel AND a per-batch bias on an
+input `(B, T, D)` with a free axis `T` (neither batch nor contracted), the instance of `dense_general_formula` that the
+bias reshape to `expanded_batch_shape + features` exists for: `out[b, t, f] = Σ_d x[b, t, d]·K[b, d, f] + bias[b, f]` —
+the bias row is selected by the *batch* coordinate `b`, whatever `T` is (also when `T = B` or `T = 1`). -/
+theorem dense_general_batch_formula (x k : Tensor R) (bias : Option (Tensor R)) (y : Tensor R)
+    (B T D F : Nat) (hx : x.shape = [B, T, D]) (hk : k.shape = [B, D, F])
+    (hbs : ∀ bb, bias = some bb → bb.shape = [B, F])
+    (hok : denseGeneral [-1] [0] 1 x k bias = .ok y)
+    (b t f : Nat) (hb : b < B) (ht : t < T) (hf : f < F) :
+    y.get [b, t, f] =
+      match bias with
+      | none => sumOver (List.range D) (fun d => x.get [b, t, d] * k.get [b, d, f])
+      | some bb => sumOver (List.range D) (fun d => x.get [b, t, d] * k.get [b, d, f]) + bb.get [b, f] := by
+  have hr : x.rank = 3 := by simp [Tensor.rank, hx]
+  have hkr : k.rank = 3 := by simp [Tensor.rank, hk]
+  have hax : normalizeAxes x.rank [-1] = [2] := by rw [hr]; decide
+  have hbd : normalizeAxes x.rank [0] = List.range 1 := by rw [hr]; decide
+  have hax3 : normalizeAxes 3 [-1] = [2] := by decide
+  have hbd3 : normalizeAxes 3 [0] = [0] := by decide
+  have hy : y = denseGeneralCore [-1] [0] x k bias := by
+    simp only [denseGeneral, bind, Except.bind, pure, Except.pure] at hok
+    cases hc : denseGeneralCheck [-1] [0] 1 x k bias with
+    | error e => simp [hc] at hok
+    | ok u => simp [hc] at hok; exact hok.symm
+  have hshape : y.shape = [B, T, F] := by
+    rw [hy]
+    cases bias <;>
+      simp [denseGeneralCore, dotGeneral, Tensor.ofFn, hr, hax3, hbd3, hkr, hx, hk, nth, List.range_succ, List.filter_cons]
+  have hib : inBounds y.shape ([b] ++ [t] ++ [f]) = true := by
+    rw [hshape]; simp [inBounds, hb, ht, hf]
+  have hfree : [t].length = ((List.range x.rank).filter
+      (fun a => !((normalizeAxes x.rank [-1]).contains a) && !((List.range 1).contains a))).length := by
+    rw [hax, hr]; simp [List.range_succ, List.filter_cons]
+  have hmain := dense_general_formula [-1] [0] 1 x k bias y hok 1 [b] [t] [f] [F] hbd rfl hfree
+    (by rw [hax, hkr]; rfl) (by rw [hr]; omega) (by rw [hax]; simp) (by rw [hax, hk]; rfl)
+    (by intro bb hbb; rw [hbs bb hbb, hx]; rfl) (by rw [hx]; simp [inBounds, nth, hb]) (by simp [inBounds, hf]) hib
+  have hsc : ∀ d, scatterIdx x.rank ((List.range 1).zip [b] ++ (normalizeAxes x.rank [-1]).zip [d]) [t] = [b, t, d] := by
+    intro d
+    rw [hax, hr]
+    simp [scatterIdx, scatterAt, List.range_succ, List.find?]
+  have hind : indices ((normalizeAxes x.rank [-1]).map (nth x.shape ·)) = (List.range D).map (fun d => [d]) := by
+    rw [hax, hx]; simp [nth, indices_singleton]
+  simp only [List.cons_append, List.nil_append, List.singleton_append] at hmain
+  rw [hmain]
+  cases bias with
+  | none => simp only [hind, sumOver_map, hsc]; rfl
+  | some bb => simp only [hind, sumOver_map, hsc]; rfl
+
+example : (denseGeneral [-1] [0] 1 (⟨[2, 2, 2], #[1, 2, 3, 4, 5, 6, 7, 8]⟩ : Tensor Int) ⟨[2, 2, 1], #[1, -1, 2, 3]⟩
+    (some ⟨[2, 1], #[10, 20]⟩)).toBool = true := by decide
+
 omit [Zero R] [Add R] [Mul R] in
 /-- `place`: an assigned position carries its value (keys pairwise distinct — flax's batch and contraction axes are) -/
 theorem place_assigned (n : Nat) (keys vals rest : List Nat) (hn : keys.Nodup) (hl : keys.length = vals.length)
